@@ -54,8 +54,63 @@ func must[T any](v T, err error) T {
 	return v
 }
 
+// scalarOf renders b mod N as a 32-byte scalar (zero allowed: a share may legally be 0).
 func scalarOf(b *big.Int) tss.Scalar {
-	return must(tss.NewScalar(pad32(new(big.Int).Mod(b, curveN).Bytes())))
+	return tss.Scalar(pad32(new(big.Int).Mod(b, curveN).Bytes()))
+}
+
+// craftZeroShare replaces dealer j's (0-based) polynomial by a legal one with a root at the member id
+// of recipient r (0-based): a_0 and a_2.. are kept as drawn, a_1 = -(a_0 + sum_{k>=2} a_k x^k)/x mod N.
+// Commitments are the real pkg/tss images of the coefficients; the A0 proof and the one-time key are
+// unaffected (a_0 is unchanged).  Requires t >= 2.
+func craftZeroShare(g *tssh.Group, j, r int) {
+	r1 := &g.R1[j]
+	if len(r1.Coefficients) < 2 {
+		panic("craftZeroShare needs threshold >= 2")
+	}
+	x := big.NewInt(int64(r + 1))
+	rest := new(big.Int)
+	pow := big.NewInt(1)
+	for k, c := range r1.Coefficients {
+		if k != 1 {
+			rest.Add(rest, new(big.Int).Mul(new(big.Int).SetBytes(c), pow))
+		}
+		pow = new(big.Int).Mul(pow, x)
+	}
+	a1 := new(big.Int).Mul(new(big.Int).Neg(rest), new(big.Int).ModInverse(x, curveN))
+	a1.Mod(a1, curveN)
+	if a1.Sign() == 0 {
+		panic("craftZeroShare: degenerate coefficient")
+	}
+	coefs := append(tss.Scalars(nil), r1.Coefficients...)
+	coefs[1] = scalarOf(a1)
+	commits := append(tss.Points(nil), r1.CoefficientCommits...)
+	commits[1] = coefs[1].Point()
+	r1.Coefficients, r1.CoefficientCommits = coefs, commits
+	var big_ []*big.Int
+	for _, c := range coefs {
+		big_ = append(big_, new(big.Int).SetBytes(c))
+	}
+	if polyEval(big_, int64(r+1)).Sign() != 0 {
+		panic("craftZeroShare: polynomial has no root at the recipient id")
+	}
+}
+
+// setOwnKeys computes every member's key share sum_j f_j(i) from the polynomials (material for the
+// confirm messages used as probes; the members' own round-3 handling is the daemon's code in Step).
+func setOwnKeys(g *tssh.Group) {
+	g.OwnPriv = make([]tss.Scalar, g.N)
+	for i := 0; i < int(g.N); i++ {
+		sum := new(big.Int)
+		for j := 0; j < int(g.N); j++ {
+			var cs []*big.Int
+			for _, c := range g.R1[j].Coefficients {
+				cs = append(cs, new(big.Int).SetBytes(c))
+			}
+			sum.Add(sum, polyEval(cs, int64(i+1)))
+		}
+		g.OwnPriv[i] = scalarOf(sum)
+	}
 }
 
 // slotOf is the harness's own statement of where dealer d puts the share for recipient r (both
